@@ -10,7 +10,7 @@ WIDE_QUICK = 2000
 PROP = 'C13'
 EXHAUSTIVE = True
 RULE = ('levels 0..0x7F x {non-zero seed, all-zero seed, negative, truncated, wrong level echo, other service, silence, '
-        'pending then seed} x algorithm kinds 0..7 x key reply {positive, negative, silence}; seed lengths 1..8. '
+        'pending then seed} x algorithm kinds 0..8 x key reply {positive, negative, silence}; seed lengths 1..8. '
         'non-trivial = a seed request was transmitted (distinct case lines)')
 ASSUMPTIONS = ['the executable algorithm instances compute reversed(seed) ++ extras; any algorithm is covered by the theorem (section variable style: result is opaque)']
 
@@ -20,7 +20,7 @@ def gen_cases(tier, seed):
     for level in range(0, 0x80):
         odd = level if level % 2 == 1 else level - 1
         even = odd + 1
-        for algo in (0, 1, 2, 3, 4, 5, 6, 7):
+        for algo in (0, 1, 2, 3, 4, 5, 6, 7, 8):
             if tier == 'quick' and algo in (0, 4) and level not in (1, 2, 0x7D, 0x7E, 0, 0x7F):
                 continue
             for ex in (1, 0):
@@ -95,7 +95,7 @@ def oracle(c, r):
     if aseed != seed or lvl not in (-1, level):
         return ('algo-args', 'algorithm got seed %s level %r; received seed %s requested level %d' % (aseed.hex(), lvl, seed.hex(), level))
     kind = cfgv[cl.ALGO]
-    if kind in (2, 3, 4, 5, 7) and prm != cfgv[cl.ALGO_PRM]:
+    if kind in (2, 3, 4, 5, 7, 8) and prm != cfgv[cl.ALGO_PRM]:
         return ('algo-params', 'algorithm got params %r, configured security_algo_params is %r (-1 = None)' % (prm, cfgv[cl.ALGO_PRM]))
     if kind == 7:      # the algorithm failed: its error reaches the caller, nothing more goes out
         if len(sent) != 1:
@@ -104,7 +104,7 @@ def oracle(c, r):
             return ('failed-algo-outcome', 'the algorithm raised its own exception; the call ended with kind=%s err=%r' % (d['kind'], d.get('err')))
         return None
     pb = 0 if cfgv[cl.ALGO_PRM] < 0 else cfgv[cl.ALGO_PRM] & 0xFF
-    key = bytes(reversed(seed)) + (b'' if kind in (1, 6) else (bytes([pb]) if kind in (2, 5) else bytes([level & 0xFF, pb])))
+    key = bytes(reversed(seed)) + (b'' if kind in (1, 6) else (bytes([pb]) if kind in (2, 5, 8) else bytes([level & 0xFF, pb])))
     if len(sent) != 2 or sent[1] != bytes([0x27, 2 * k]) + key:
         return ('key-frame', 'frames after the seed request: %r, expected 27 %02x %s' % ([s.hex() for s in sent[1:]], 2 * k, key.hex()))
     return None
